@@ -93,9 +93,11 @@ def normalize_ev(geom, evals, method="geometry"):
 
     elif method == "volume":
         if type(geom).__name__ == "TriaMesh":
-            geom.orient_()
+            # orient a copy, the mesh of the caller must not be modified
+            bnd = type(geom)(geom.v, geom.t)
+            bnd.orient_()
 
-            vol = geom.volume()
+            vol = bnd.volume()
 
         elif type(geom).__name__ == "TetMesh":
             bnd = geom.boundary_tria()
